@@ -241,7 +241,7 @@ def main():
                           "non-trivial = the bundle changed the document or raised")
   from checks import C02
   C02.tune_explore(4)
-  explore.explore(rep, "checks.C08", "C08Monitor", n_quick=112, budget_quick_s=22)
+  explore.explore(rep, "checks.C08", "C08Monitor", n_quick=160, budget_quick_s=30)
   return rep.finish()
 
 
